@@ -373,7 +373,11 @@ def register(E):
     # mutexes: a lock table per path. A Lock on a held mutex blocks the goroutine (scheduler) or the harness
     # (Blocked: a deadlock of the sequential kernel); state: [writer held, readers]
     def mu_state(E, p):
-        return E.mutexes.setdefault((id(p.obj), p.path), [False, 0])
+        k = (id(p.obj), p.path)
+        if k not in E.mutexes:
+            E.keep.append(p.obj)
+            E.mutexes[k] = [False, 0]
+        return E.mutexes[k]
 
     def mu_wait(E, pred, what):
         if pred():
@@ -436,7 +440,11 @@ def register(E):
         raise Unsupported('sync.Map key')
 
     def sm_of(E, p):
-        return E.syncmaps.setdefault((id(p.obj), p.path), {})
+        k = (id(p.obj), p.path)
+        if k not in E.syncmaps:
+            E.keep_base.append(p.obj)
+            E.syncmaps[k] = {}
+        return E.syncmaps[k]
 
     def sm_load(E, args):
         m = sm_of(E, args[0])
@@ -470,6 +478,7 @@ def register(E):
 
     def wg_add(E, args):
         k = wg_key(args[0])
+        E.keep.append(args[0].obj)
         E.wg_counters[k] = E.wg_counters.get(k, 0) + E.conc_int(args[1], 64, True)
     I['(*sync.WaitGroup).Add'] = wg_add
 
@@ -1023,6 +1032,64 @@ def register(E):
             return args[0].upper()
         raise Unsupported('ToUpper symbolic')
     I['strings.ToUpper'] = strings_toupper
+
+    # strings.Builder / bytes as a list of byte values per builder object (reset per path)
+    def sb_of(E, p):
+        k = (id(p.obj), p.path)
+        if k not in E.builders:
+            E.keep.append(p.obj)  # keeps the object alive, so that its id() is not reused within the path
+            E.builders[k] = []
+        return E.builders[k]
+
+    def sb_str_bytes(E, x):
+        if type(x) is bytes:
+            return list(x)
+        if type(x) is SymStr:
+            return list(x.bs)
+        raise Unsupported('strings.Builder: string of this kind')
+
+    def sb_result(bs):
+        if all(type(b) is int for b in bs):
+            return bytes(bs)
+        return SymStr(bs)
+
+    def sb_writestring(E, args):
+        bs = sb_str_bytes(E, args[1])
+        sb_of(E, args[0]).extend(bs)
+        return (len(bs), None)
+    I['(*strings.Builder).WriteString'] = sb_writestring
+
+    def sb_writebyte(E, args):
+        sb_of(E, args[0]).append(args[1])
+        return None
+    I['(*strings.Builder).WriteByte'] = sb_writebyte
+
+    def sb_writerune(E, args):
+        r = args[1]
+        if type(r) is not int:
+            raise Unsupported('strings.Builder.WriteRune of a symbolic rune')
+        r &= 0xFFFFFFFF
+        if r >= 0x80000000 or r > 0x10FFFF or 0xD800 <= r <= 0xDFFF:
+            enc = b'\xef\xbf\xbd'
+        else:
+            enc = chr(r).encode('utf-8')
+        sb_of(E, args[0]).extend(enc)
+        return (len(enc), None)
+    I['(*strings.Builder).WriteRune'] = sb_writerune
+
+    def sb_write(E, args):
+        bs = E.slice_list(args[1])
+        sb_of(E, args[0]).extend(bs)
+        return (len(bs), None)
+    I['(*strings.Builder).Write'] = sb_write
+    I['(*strings.Builder).String'] = lambda E, a: sb_result(sb_of(E, a[0]))
+    I['(*strings.Builder).Len'] = lambda E, a: len(sb_of(E, a[0]))
+    I['(*strings.Builder).Grow'] = lambda E, a: None
+
+    def sb_reset(E, args):
+        del sb_of(E, args[0])[:]
+        return None
+    I['(*strings.Builder).Reset'] = sb_reset
 
     def sort_lemma(E, s, less, stable=False):
         """C03 (b): the comparator handed to sort.Slice by message.(*ReadWriter).Initialize, evaluated on three field
